@@ -193,6 +193,14 @@ impl Property for C03 {
             Tier::Thorough => 4000,
         }
     }
+    fn fresh_runs(&self, tier: Tier) -> u64 {
+        // every run costs three rustc invocations
+        if tier == Tier::Thorough {
+            100
+        } else {
+            16
+        }
+    }
     fn generate(&self, rng: &mut Rng, tier: Tier) -> Scenario {
         let mut sc = Scenario::new("C03");
         sc.budget = 3000;
